@@ -18,8 +18,8 @@ def isCOS : Cont → Bool
 
 /-- Per scan function: what its evaluation context and captured values satisfy. -/
 def ContOK (trig : Bool) (x : Ectx) : Cont → Prop
-  | .object | .objectPName | .objListContinue | .collOpenObj => x.subj.isSome ∧ x.pred.isSome
-  | .collContinue | .pol | .polContinue | .polRequired | .subjAnonOrBNPL | .triples2BNPL => x.subj.isSome
+  | .object | .objectPName | .objListContinue | .collOpenObj | .collContinue => x.subj.isSome ∧ x.pred.isSome
+  | .pol | .polContinue | .polRequired | .subjAnonOrBNPL | .triples2BNPL => x.subj.isSome
   | .statement | .atBaseIRI | .atBaseDot _ | .atPrefixNS | .atPrefixIRI _ | .atPrefixDot _ _
   | .sparqlBaseIRI | .sparqlPrefixNS | .sparqlPrefixIRI _ => x.subj = none
   | .wrappedGraph | .triplesBlock | .triplesBlockQuest | .triples => x.subj = none
@@ -39,6 +39,8 @@ structure OutOK (C : Cfg) (e : End) (o : Out) : Prop where
   push : ∀ f ∈ o.push, FrameOK C.trig f ∧ isCOS f.k = false
   cur : ∀ f, o.cur = some f → FrameOK C.trig f ∧ (isCOS f.k = true → o.emit = none ∧ LA C e o.inp)
   emit : ∀ s, o.emit = some s → WFStmt C.trig s
+  /-- `terminate()` is only ever called on a clean end of input -/
+  term : o.term = true → e = .eof
 
 def ResOK (C : Cfg) (e : End) : FnRes → Prop
   | .ok o => OutOK C e o
@@ -117,8 +119,9 @@ theorem wf_mkStmt {t : Bool} {x : Ectx} (h : XOk t x) (hs : x.subj.isSome) (hp :
 /-- outputs without a `collOpenSubj` frame -/
 theorem outOK_simple {o : Out} (hpush : ∀ f ∈ o.push, FrameOK C.trig f ∧ isCOS f.k = false)
     (hcur : ∀ f, o.cur = some f → FrameOK C.trig f ∧ isCOS f.k = false)
-    (hemit : ∀ s, o.emit = some s → WFStmt C.trig s) : OutOK C e o :=
-  ⟨hpush, fun f hf => ⟨(hcur f hf).1, fun h => by rw [(hcur f hf).2] at h; cases h⟩, hemit⟩
+    (hemit : ∀ s, o.emit = some s → WFStmt C.trig s) (hterm : o.term = false := by rfl) : OutOK C e o :=
+  ⟨hpush, fun f hf => ⟨(hcur f hf).1, fun h => by rw [(hcur f hf).2] at h; cases h⟩, hemit,
+   fun h => by rw [hterm] at h; cases h⟩
 
 def TermResOK : TermRes → Prop
   | .ok t _ _ => nodeShape t
@@ -227,7 +230,7 @@ theorem resOK_withSelf {x : Ectx} (hx : XOk C.trig x) (hn : x.subj = none) {r : 
     ResOK C e (withSelf x r) := by
   cases r with
   | ok o =>
-    refine ⟨?_, h.cur, h.emit⟩
+    refine ⟨?_, h.cur, h.emit, h.term⟩
     intro f hf
     simp at hf
     rcases hf with rfl | hf
@@ -250,90 +253,97 @@ theorem outOK_noemit {cur : Option Frame} {push : List Frame} {inp : List Nat} {
     ResOK C e (.ok { cur := cur, push := push, inp := inp, env := env }) :=
   outOK_simple hpush hcur (fun s h => by simp at h)
 
-theorem stepStatementRune_ok (hP : C.P.NoPanic) {x : Ectx} (hx : XOk C.trig x) (hn : x.subj = none)
-    (env : Env) (c : Nat) (rest : List Nat) : ResOK C e (stepStatementRune C e x env c rest) := by
-  have hself : ∀ k, ContOK C.trig x k → isCOS k = false → ∀ inp env', ResOK C e (.ok { cur := some ⟨x, k⟩, inp := inp, env := env' }) := by
-    intro k hk hc inp env'
-    refine outOK_noemit ?_ ?_
-    · intro f hf; simp at hf
-    · intro f hf; simp at hf; subst hf; exact ⟨⟨hx, hk⟩, hc⟩
-  have hsubj : ∀ k, ContOK C.trig x k → isCOS k = false → ∀ inp env',
-      ResOK C e (.ok { cur := some ⟨x, k⟩, push := [⟨x, .triplesEnd⟩], inp := inp, env := env' }) := by
-    intro k hk hc inp env'
-    refine outOK_noemit ?_ ?_
-    · intro f hf; simp at hf; subst hf; exact ⟨⟨hx, trivial⟩, rfl⟩
-    · intro f hf; simp at hf; subst hf; exact ⟨⟨hx, hk⟩, hc⟩
-  unfold stepStatementRune
+theorem resOK_self {x : Ectx} (hx : XOk C.trig x) {k : Cont} (hk : ContOK C.trig x k) (hc : isCOS k = false)
+    (inp : List Nat) (env' : Env) : ResOK C e (.ok { cur := some ⟨x, k⟩, inp := inp, env := env' }) := by
+  refine outOK_noemit ?_ ?_
+  · intro f hf; simp at hf
+  · intro f hf; simp at hf; subst hf; exact ⟨⟨hx, hk⟩, hc⟩
+
+theorem resOK_subj {x : Ectx} (hx : XOk C.trig x) {k : Cont} (hk : ContOK C.trig x k) (hc : isCOS k = false)
+    (inp : List Nat) (env' : Env) :
+    ResOK C e (.ok { cur := some ⟨x, k⟩, push := [⟨x, .triplesEnd⟩], inp := inp, env := env' }) := by
+  refine outOK_noemit ?_ ?_
+  · intro f hf; simp at hf; subst hf; exact ⟨⟨hx, trivial⟩, rfl⟩
+  · intro f hf; simp at hf; subst hf; exact ⟨⟨hx, hk⟩, hc⟩
+
+theorem stepAtDirective_ok {x : Ectx} (hx : XOk C.trig x) (hn : x.subj = none) (env : Env) (rest : List Nat) :
+    ResOK C e (stepAtDirective e x env rest) := by
+  unfold stepAtDirective
   split
-  · -- '@'
-    split
+  · trivial
+  · split
+    · split <;> first | trivial | exact resOK_self hx (by exact hn) (by rfl) _ _
+    · split
+      · split <;> first | trivial | exact resOK_self hx (by exact hn) (by rfl) _ _
+      · trivial
+
+theorem stepKwBase_ok (hP : C.P.NoPanic) {x : Ectx} (hx : XOk C.trig x) (hn : x.subj = none)
+    (env : Env) (c : Nat) (rest : List Nat) : ResOK C e (stepKwBase C e x env c rest) := by
+  unfold stepKwBase
+  split
+  · trivial
+  · exact kwFallback_ok hP hx hn _ _
+  · split
     · trivial
     · split
-      · split <;> first | trivial | exact hself _ hn rfl _ _
+      · exact resOK_self hx (by exact hn) (by rfl) _ _
       · split
-        · split <;> first | trivial | exact hself _ hn rfl _ _
-        · trivial
-  · split
-    · -- BASE
-      split
-      · trivial
-      · exact kwFallback_ok hP hx hn _ _
-      · split
-        · trivial
-        · split
-          · exact hself _ hn rfl _ _
-          · split
-            · exact kwFallback_ok hP hx hn _ _
-            · exact hself _ hn rfl _ _
-    · split
-      · -- PREFIX
-        split
-        · trivial
         · exact kwFallback_ok hP hx hn _ _
-        · split
-          · trivial
-          · split
-            · exact kwFallback_ok hP hx hn _ _
-            · exact hself _ hn rfl _ _
+        · exact resOK_self hx (by exact hn) (by rfl) _ _
+
+theorem stepKwSpace_ok (hP : C.P.NoPanic) {x : Ectx} (hx : XOk C.trig x) (hn : x.subj = none)
+    (env : Env) (kw : List (Nat × Nat)) {k : Cont} (hk : ContOK C.trig x k) (hc : isCOS k = false) (c : Nat)
+    (rest : List Nat) : ResOK C e (stepKwSpace C e x env kw k c rest) := by
+  unfold stepKwSpace
+  split
+  · trivial
+  · exact kwFallback_ok hP hx hn _ _
+  · split
+    · trivial
+    · split
+      · exact kwFallback_ok hP hx hn _ _
+      · exact resOK_self hx hk hc _ _
+
+theorem stepSubjectStart_ok (hP : C.P.NoPanic) {x : Ectx} (hx : XOk C.trig x) (hn : x.subj = none)
+    (env : Env) (c : Nat) (rest : List Nat) : ResOK C e (stepSubjectStart C e x env c rest) := by
+  unfold stepSubjectStart
+  split
+  · split
+    · next ht => exact labelOrSubject_ok hx hn ht (termIRIREF_ok hP _ _)
+    · exact resOK_subj hx (by exact trivial) (by rfl) _ _
+  · split
+    · split
+      · next ht => exact labelOrSubject_ok hx hn ht (termBNode_ok hP _ _)
+      · exact resOK_subj hx (by exact trivial) (by rfl) _ _
+    · split
       · split
-        · -- GRAPH
-          next hg =>
-          split
-          · trivial
-          · exact kwFallback_ok hP hx hn _ _
+        · next ht => exact resOK_self hx (by exact ⟨hn, ht, trivial⟩) (by rfl) _ _
+        · refine outOK_noemit ?_ ?_
+          · intro f hf; simp at hf
+          · intro f hf; simp at hf; subst hf
+            exact ⟨⟨hx.setSubj trivial, rfl⟩, rfl⟩
+      · split
+        · exact resOK_self hx (by exact ⟨hn, trivial⟩) (by rfl) _ _
+        · split
           · split
-            · trivial
-            · split
-              · exact kwFallback_ok hP hx hn _ _
-              · exact hself _ ⟨hn, hg.1⟩ rfl _ _
+            · next ht => exact labelOrSubject_ok hx hn ht (termPName_ok hP _ _)
+            · exact resOK_subj hx (by exact trivial) (by rfl) _ _
+          · trivial
+
+theorem stepStatementRune_ok (hP : C.P.NoPanic) {x : Ectx} (hx : XOk C.trig x) (hn : x.subj = none)
+    (env : Env) (c : Nat) (rest : List Nat) : ResOK C e (stepStatementRune C e x env c rest) := by
+  unfold stepStatementRune
+  split
+  · exact stepAtDirective_ok hx hn _ _
+  · split
+    · exact stepKwBase_ok hP hx hn _ _ _
+    · split
+      · exact stepKwSpace_ok hP hx hn _ _ (by exact hn) (by rfl) _ _
+      · split
+        · next hg => exact stepKwSpace_ok hP hx hn _ _ (by exact ⟨hn, hg.1⟩) (by rfl) _ _
         · split
           · exact stepWrappedGraph_ok hx hn _ _
-          · split
-            · split
-              · next ht => exact labelOrSubject_ok hx hn ht (termIRIREF_ok hP _ _)
-              · exact hsubj _ trivial rfl _ _
-            · split
-              · split
-                · next ht => exact labelOrSubject_ok hx hn ht (termBNode_ok hP _ _)
-                · exact hsubj _ trivial rfl _ _
-              · split
-                · -- '['
-                  simp only [Env.fresh]
-                  split
-                  · next ht => exact hself _ ⟨hn, ht, trivial⟩ rfl _ _
-                  · refine outOK_noemit ?_ ?_
-                    · intro f hf; simp at hf
-                    · intro f hf; simp at hf; subst hf
-                      exact ⟨⟨hx.setSubj trivial, rfl⟩, rfl⟩
-                · split
-                  · -- '('
-                    simp only [Env.fresh]
-                    exact hself _ ⟨hn, trivial⟩ rfl _ _
-                  · split
-                    · split
-                      · next ht => exact labelOrSubject_ok hx hn ht (termPName_ok hP _ _)
-                      · exact hsubj _ trivial rfl _ _
-                    · trivial
+          · exact stepSubjectStart_ok hP hx hn _ _ _
 
 theorem stepCollection_ok {x : Ectx} (hx : XOk C.trig x) (env : Env) (c : Nat) (rest : List Nat) {o : T}
     (ho : nodeShape o) (h : (x.subj.isSome ∧ x.pred.isSome) ∨ (x.subj = none ∧ c ≠ 0x29)) :
@@ -351,49 +361,738 @@ theorem stepCollection_ok {x : Ectx} (hx : XOk C.trig x) (env : Env) (c : Nat) (
     · exact absurd hc hne
   · split
     · refine outOK_noemit ?_ ?_
-      · intro f hf; simp at hf; subst hf; exact ⟨⟨hnx, rfl⟩, rfl⟩
+      · intro f hf; simp at hf; subst hf; exact ⟨⟨hnx, rfl, rfl⟩, rfl⟩
       · intro f hf; simp at hf; subst hf; exact ⟨⟨hnx, rfl, rfl⟩, rfl⟩
     · next s hs =>
       rcases h with ⟨hs', hp⟩ | ⟨hn, _⟩
       · refine outOK_simple ?_ ?_ ?_
-        · intro f hf; simp at hf; subst hf; exact ⟨⟨hnx, rfl⟩, rfl⟩
+        · intro f hf; simp at hf; subst hf; exact ⟨⟨hnx, rfl, rfl⟩, rfl⟩
         · intro f hf; simp at hf; subst hf; exact ⟨⟨hnx, rfl, rfl⟩, rfl⟩
         · intro s h; simp at h; subst h
           refine wf_mkStmt hx hs' hp ?_
           cases o <;> trivial
       · rw [hn] at hs; cases hs
 
+theorem polGo_ok {x : Ectx} (hx : XOk C.trig x) (hs : x.subj.isSome) {p : T} (hp : isIRI p) (inp : List Nat)
+    (env : Env) : ResOK C e (polGo x p inp env) := by
+  unfold polGo
+  refine outOK_noemit ?_ ?_
+  · intro f hf; simp at hf; subst hf; exact ⟨⟨hx.setPred hp, hs, rfl⟩, rfl⟩
+  · intro f hf; simp at hf; subst hf; exact ⟨⟨hx.setPred hp, hs, rfl⟩, rfl⟩
+
+theorem polOfTerm_iriref (hP : C.P.NoPanic) {x : Ectx} (hx : XOk C.trig x) (hs : x.subj.isSome) (env : Env)
+    (inp : List Nat) : ResOK C e (polOfTerm x (termIRIREF C e env inp)) := by
+  rcases termIRIREF_cases (e := e) hP env inp with ⟨i, r, h⟩ | ⟨k, h⟩ <;> rw [h]
+  · exact polGo_ok hx hs (by trivial) _ _
+  · trivial
+
+theorem polOfTerm_pname (hP : C.P.NoPanic) {x : Ectx} (hx : XOk C.trig x) (hs : x.subj.isSome) (env : Env)
+    (inp : List Nat) : ResOK C e (polOfTerm x (termPName C e env inp)) := by
+  rcases termPName_cases (e := e) hP env inp with ⟨i, r, h⟩ | ⟨k, h⟩ <;> rw [h]
+  · exact polGo_ok hx hs (by trivial) _ _
+  · trivial
+
 theorem stepPOL_ok (hP : C.P.NoPanic) {x : Ectx} (hx : XOk C.trig x) (hs : x.subj.isSome) (env : Env) (c : Nat)
     (rest : List Nat) : ResOK C e (stepPOL C e x env c rest) := by
-  have hgo : ∀ (p : T) (inp : List Nat) (env' : Env), isIRI p →
-      ResOK C e (.ok { cur := some ⟨{ x with pred := some p }, .object⟩,
-                       push := [⟨{ x with pred := some p }, .objListContinue⟩], inp := inp, env := env' }) := by
-    intro p inp env' hp
-    refine outOK_noemit ?_ ?_
-    · intro f hf; simp at hf; subst hf; exact ⟨⟨hx.setPred hp, hs, rfl⟩, rfl⟩
-    · intro f hf; simp at hf; subst hf; exact ⟨⟨hx.setPred hp, hs, rfl⟩, rfl⟩
-  have hvia : ResOK C e (match termPName C e env (c :: rest) with
-      | .panic => .panic
-      | .err k => .err k
-      | .ok p r env' => .ok { cur := some ⟨{ x with pred := some p }, .object⟩,
-                       push := [⟨{ x with pred := some p }, .objListContinue⟩], inp := r, env := env' }) := by
-    rcases termPName_cases (e := e) hP env (c :: rest) with ⟨i, r, h⟩ | ⟨k, h⟩ <;> rw [h]
-    · exact hgo _ _ _ trivial
-    · trivial
   unfold stepPOL
-  simp only []
   split
-  · rcases termIRIREF_cases (e := e) hP env (c :: rest) with ⟨i, r, h⟩ | ⟨k, h⟩ <;> rw [h]
-    · exact hgo _ _ _ trivial
-    · trivial
+  · exact polOfTerm_iriref hP hx hs _ _
   · split
     · split
       · trivial
       · split
-        · exact hvia
-        · exact hgo _ _ _ trivial
+        · exact polOfTerm_pname hP hx hs _ _
+        · exact polGo_ok hx hs (by trivial) _ _
     · split
-      · exact hvia
+      · exact polOfTerm_pname hP hx hs _ _
       · refine outOK_noemit ?_ ?_ <;> intro f hf <;> simp at hf
+
+end RdfModel.TtlDoc
+
+namespace RdfModel.TtlDoc
+
+variable {C : Cfg} {e : End}
+
+theorem resOK_emit {x : Ectx} (hx : XOk C.trig x) (hs : x.subj.isSome) (hp : x.pred.isSome) {o : T} (ho : litShape o)
+    (inp : List Nat) (env : Env) : ResOK C e (.ok { emit := some (mkStmt x o), inp := inp, env := env }) := by
+  refine outOK_simple ?_ ?_ ?_
+  · intro f hf; simp at hf
+  · intro f hf; simp at hf
+  · intro s h; simp at h; subst h; exact wf_mkStmt hx hs hp ho
+
+theorem emitOfTerm_ok {x : Ectx} (hx : XOk C.trig x) (hs : x.subj.isSome) (hp : x.pred.isSome) {tr : TermRes}
+    (h : TermResOK tr) : ResOK C e (emitOfTerm x tr) := by
+  cases tr with
+  | ok t r env => exact resOK_emit hx hs hp (by cases t <;> trivial) _ _
+  | err k => trivial
+  | panic => exact h
+
+theorem stepLiteralTail_ok (hP : C.P.NoPanic) (hL : C.P.LangNonEmpty) {x : Ectx} (hx : XOk C.trig x)
+    (hs : x.subj.isSome) (hp : x.pred.isSome) (env : Env) (lex rest : List Nat) :
+    ResOK C e (stepLiteralTail C e x env lex rest) := by
+  unfold stepLiteralTail
+  split
+  · trivial
+  · split
+    · have := hP.langtag e
+      split
+      · next h => exact absurd h (this _)
+      · trivial
+      · next tag r h => exact resOK_emit hx hs hp (by exact ⟨rfl, hL _ _ _ _ h⟩) _ _
+    · split
+      · split
+        · trivial
+        · split
+          · trivial
+          · split
+            · trivial
+            · next c2 rest2 =>
+              have h1 := iriIRIREF_np (e := e) hP env (c2 :: rest2)
+              have h2 := iriPName_np (e := e) hP env (c2 :: rest2)
+              simp only []
+              split
+              · next h => split at h <;> simp_all
+              · trivial
+              · exact resOK_emit hx hs hp (by trivial) _ _
+      · exact resOK_emit hx hs hp (by trivial) _ _
+
+theorem emitOfNumeric_ok {x : Ectx} (hx : XOk C.trig x) (hs : x.subj.isSome) (hp : x.pred.isSome) (env : Env)
+    {r : Ttl.Res (Ttl.NumKind × List Nat)} (h : r ≠ .panic) : ResOK C e (emitOfNumeric x env r) := by
+  cases r with
+  | ok v rest => obtain ⟨k, lex⟩ := v; exact resOK_emit hx hs hp (by trivial) _ _
+  | err k => trivial
+  | panic => exact absurd rfl h
+
+theorem stepObject_ok (hP : C.P.NoPanic) (hL : C.P.LangNonEmpty) {x : Ectx} (hx : XOk C.trig x)
+    (hs : x.subj.isSome) (hp : x.pred.isSome) (env : Env) (c : Nat) (rest : List Nat) :
+    ResOK C e (stepObject C e x env c rest) := by
+  unfold stepObject
+  split
+  · exact emitOfTerm_ok hx hs hp (termIRIREF_ok hP _ _)
+  · split
+    · exact emitOfTerm_ok hx hs hp (termBNode_ok hP _ _)
+    · split
+      · exact resOK_self hx (by exact ⟨hs, hp⟩) (by rfl) _ _
+      · split
+        · -- '['
+          have hnx : XOk C.trig { x with subj := some env.fresh.1, pred := none } := hx.clearPred trivial
+          refine outOK_simple ?_ ?_ ?_
+          · intro f hf
+            simp at hf
+            rcases hf with rfl | rfl | rfl <;> exact ⟨⟨hnx, by first | trivial | rfl⟩, rfl⟩
+          · intro f hf; simp at hf
+          · intro s h; simp at h; subst h; exact wf_mkStmt hx hs hp (by trivial)
+        · split
+          · have := hP.string e
+            split
+            · next h => exact absurd h (this _)
+            · trivial
+            · exact stepLiteralTail_ok hP hL hx hs hp _ _ _
+          · split
+            · split
+              · split
+                · trivial
+                · split
+                  · trivial
+                  · exact emitOfNumeric_ok hx hs hp _ (hP.numeric _ _)
+              · exact emitOfNumeric_ok hx hs hp _ (hP.numeric _ _)
+            · split
+              · split
+                · trivial
+                · exact resOK_self hx (by exact ⟨hs, hp⟩) (by rfl) _ _
+                · exact resOK_emit hx hs hp (by trivial) _ _
+              · split
+                · exact resOK_self hx (by exact ⟨hs, hp⟩) (by rfl) _ _
+                · trivial
+
+theorem stepTriples_ok {x : Ectx} (hx : XOk C.trig x) (hn : x.subj = none) (env : Env) (c : Nat) (rest : List Nat) :
+    ResOK C e (stepTriples C x env c rest) := by
+  unfold stepTriples
+  split
+  · exact resOK_self hx (by trivial) (by rfl) _ _
+  · split
+    · exact resOK_self hx (by trivial) (by rfl) _ _
+    · split
+      · have hnx : XOk C.trig { x with subj := some env.fresh.1 } := hx.setSubj trivial
+        refine outOK_noemit ?_ ?_
+        · intro f hf
+          simp at hf
+          rcases hf with rfl | rfl | rfl | rfl <;> exact ⟨⟨hnx, by first | trivial | rfl⟩, rfl⟩
+        · intro f hf; simp at hf; subst hf; exact ⟨⟨hnx, rfl⟩, rfl⟩
+      · split
+        · exact resOK_self hx (by exact ⟨hn, trivial⟩) (by rfl) _ _
+        · split
+          · exact resOK_self hx (by trivial) (by rfl) _ _
+          · trivial
+
+theorem stepParen_ok (top : Bool) {x : Ectx} (hx : XOk C.trig x) (hn : x.subj = none) (env : Env) {bn : T}
+    (hb : nodeShape bn) {a : Arg} (ha : ArgOK C e a) : ResOK C e (stepParen top x env bn a) := by
+  have hla : a.orNul.1 ≠ 0x29 → LA C e (a.orNul.1 :: a.orNul.2) := by
+    intro hne
+    cases a with
+    | fail => exact LA_nul C e
+    | rune c r => exact LA_of_argOK C e ha hne
+  have htail : ∀ f ∈ (if top then [(⟨x, .triplesEnd⟩ : Frame)] else []), FrameOK C.trig f ∧ isCOS f.k = false := by
+    intro f hf
+    cases top <;> simp at hf
+    subst hf; exact ⟨⟨hx, trivial⟩, rfl⟩
+  unfold stepParen
+  simp only []
+  split
+  · have hnx : XOk C.trig { x with subj := some (.iri rdfNil) } := hx.setSubj trivial
+    refine outOK_noemit ?_ ?_
+    · intro f hf
+      simp only [List.mem_append, List.mem_singleton] at hf
+      rcases hf with hf | rfl
+      · exact htail f hf
+      · exact ⟨⟨hnx, rfl⟩, rfl⟩
+    · intro f hf; simp at hf; subst hf; exact ⟨⟨hnx, rfl⟩, rfl⟩
+  · next hne =>
+    have hnx : XOk C.trig { x with subj := some bn } := hx.setSubj hb
+    refine ⟨?_, ?_, ?_, (fun h => by cases h)⟩
+    · intro f hf
+      simp only [List.mem_append, List.mem_cons, List.not_mem_nil, or_false] at hf
+      rcases hf with hf | rfl | rfl
+      · exact htail f hf
+      · exact ⟨⟨hnx, rfl⟩, rfl⟩
+      · exact ⟨⟨hnx, rfl⟩, rfl⟩
+    · intro f hf
+      simp at hf; subst hf
+      exact ⟨⟨hx, hn, hb⟩, fun _ => ⟨rfl, hla hne⟩⟩
+    · intro s h; simp at h
+
+end RdfModel.TtlDoc
+
+namespace RdfModel.TtlDoc
+
+variable {C : Cfg} {e : End}
+
+theorem iriref_split (hP : C.P.NoPanic) (inp : List Nat) :
+    (∃ v r, C.P.iriref e inp = .ok v r) ∨ (∃ k, C.P.iriref e inp = .err k) := by
+  cases h : C.P.iriref e inp with
+  | ok v r => exact Or.inl ⟨v, r, rfl⟩
+  | err k => exact Or.inr ⟨k, rfl⟩
+  | panic => exact absurd h (hP.iriref e inp)
+
+/-- The invariant step: under `FrameOK`, a scan function neither panics nor breaks the invariant,
+    and what it emits is well formed. -/
+theorem stepFn_ok (hP : C.P.NoPanic) (hL : C.P.LangNonEmpty) {x : Ectx} {k : Cont} (hf : FrameOK C.trig ⟨x, k⟩)
+    (env : Env) {a : Arg} (ha : ArgOK C e a) (hcos : isCOS k = true → a.orNul.1 ≠ 0x29) :
+    ResOK C e (stepFn C e k x env a) := by
+  obtain ⟨hx, hk⟩ := hf
+  simp only at hx hk
+  cases k with
+  | statement =>
+    simp only [stepFn]
+    cases a with
+    | fail =>
+      cases e with
+      | eof => exact ⟨(fun f h => by simp at h), (fun f h => by simp at h), (fun f h => by simp at h), (fun _ => rfl)⟩
+      | ioerr => trivial
+    | rune c r => exact resOK_withSelf hx hk (stepStatementRune_ok hP hx hk _ _ _)
+  | atBaseIRI =>
+    simp only [stepFn]
+    cases a with
+    | fail => trivial
+    | rune c r =>
+      simp only []
+      rcases iriref_split (e := e) hP (c :: r) with ⟨v, r', h⟩ | ⟨k, h⟩ <;> rw [h]
+      · simp only []
+        split
+        · trivial
+        · simp only [ite_true]; exact resOK_self hx (by exact hk) (by rfl) _ _
+      · trivial
+  | sparqlBaseIRI =>
+    simp only [stepFn]
+    cases a with
+    | fail => trivial
+    | rune c r =>
+      simp only []
+      rcases iriref_split (e := e) hP (c :: r) with ⟨v, r', h⟩ | ⟨k, h⟩ <;> rw [h]
+      · simp only []
+        split
+        · trivial
+        · simp only [reduceCtorEq, ite_false]; exact resOK_self hx (by exact hk) (by rfl) _ _
+      · trivial
+  | atBaseDot b =>
+    simp only [stepFn]
+    cases a with
+    | fail => trivial
+    | rune c r => simp only []; split <;> first | trivial | exact resOK_self hx (by exact hk) (by rfl) _ _
+  | atPrefixNS =>
+    simp only [stepFn]
+    cases a with
+    | fail => trivial
+    | rune c r =>
+      simp only []
+      have := hP.pnameNS e (c :: r)
+      split
+      · next h => exact absurd h this
+      · trivial
+      · simp only [ite_true]; exact resOK_self hx (by exact hk) (by rfl) _ _
+  | sparqlPrefixNS =>
+    simp only [stepFn]
+    cases a with
+    | fail => trivial
+    | rune c r =>
+      simp only []
+      have := hP.pnameNS e (c :: r)
+      split
+      · next h => exact absurd h this
+      · trivial
+      · simp only [reduceCtorEq, ite_false]; exact resOK_self hx (by exact hk) (by rfl) _ _
+  | atPrefixIRI ns =>
+    simp only [stepFn]
+    cases a with
+    | fail => trivial
+    | rune c r =>
+      simp only []
+      rcases iriref_split (e := e) hP (c :: r) with ⟨v, r', h⟩ | ⟨k, h⟩ <;> rw [h]
+      · simp only []
+        split <;> first | trivial | exact resOK_self hx (by exact hk) (by rfl) _ _
+      · trivial
+  | sparqlPrefixIRI ns =>
+    simp only [stepFn]
+    cases a with
+    | fail => trivial
+    | rune c r =>
+      simp only []
+      rcases iriref_split (e := e) hP (c :: r) with ⟨v, r', h⟩ | ⟨k, h⟩ <;> rw [h]
+      · simp only []
+        split <;> first | trivial | exact resOK_self hx (by exact hk) (by rfl) _ _
+      · trivial
+  | atPrefixDot ns b =>
+    simp only [stepFn]
+    cases a with
+    | fail => trivial
+    | rune c r => simp only []; split <;> first | trivial | exact resOK_self hx (by exact hk) (by rfl) _ _
+  | subjAnonOrBNPL =>
+    simp only [stepFn]
+    cases a with
+    | fail => trivial
+    | rune c r =>
+      simp only []
+      split
+      · refine outOK_noemit ?_ ?_
+        · intro f h; simp at h; rcases h with rfl | rfl <;> exact ⟨⟨hx, by first | trivial | exact hk⟩, rfl⟩
+        · intro f h; simp at h; subst h; exact ⟨⟨hx, hk⟩, rfl⟩
+      · refine outOK_noemit ?_ ?_
+        · intro f h; simp at h; rcases h with rfl | rfl | rfl | rfl <;> exact ⟨⟨hx, by first | trivial | exact hk⟩, rfl⟩
+        · intro f h; simp at h; subst h; exact ⟨⟨hx, hk⟩, rfl⟩
+  | triplesEnd =>
+    simp only [stepFn]
+    cases a with
+    | fail => trivial
+    | rune c r =>
+      simp only []; split
+      · refine outOK_noemit ?_ ?_ <;> intro f h <;> simp at h
+      · trivial
+  | subjIRIREF =>
+    simp only [stepFn]
+    cases a with
+    | fail => trivial
+    | rune c r => exact subjectOf_ok hx (termIRIREF_ok hP _ _)
+  | subjPName =>
+    simp only [stepFn]
+    cases a with
+    | fail => trivial
+    | rune c r => exact subjectOf_ok hx (termPName_ok hP _ _)
+  | subjBNode =>
+    simp only [stepFn]
+    cases a with
+    | fail => trivial
+    | rune c r => exact subjectOf_ok hx (termBNode_ok hP _ _)
+  | pol =>
+    simp only [stepFn]
+    cases a with
+    | fail => trivial
+    | rune c r => exact stepPOL_ok hP hx hk _ _ _
+  | polContinue =>
+    simp only [stepFn]
+    cases a with
+    | fail => trivial
+    | rune c r =>
+      simp only []; split
+      · refine outOK_noemit ?_ ?_
+        · intro f h; simp at h; subst h; exact ⟨⟨hx, hk⟩, rfl⟩
+        · intro f h; simp at h; subst h; exact ⟨⟨hx, hk⟩, rfl⟩
+      · refine outOK_noemit ?_ ?_ <;> intro f h <;> simp at h
+  | polRequired =>
+    simp only [stepFn]
+    cases a with
+    | fail => trivial
+    | rune c r =>
+      simp only []
+      have := stepPOL_ok (e := e) hP hx hk env c r
+      split
+      · next o ho => rw [ho] at this; split <;> first | trivial | exact this
+      · next r' hr => cases hr' : stepPOL C e x env c r with
+        | ok o => exact absurd hr' (hr o)
+        | err k => trivial
+        | panic => rw [hr'] at this; exact this
+  | objListContinue =>
+    simp only [stepFn]
+    cases a with
+    | fail => trivial
+    | rune c r =>
+      simp only []; split
+      · refine outOK_noemit ?_ ?_
+        · intro f h; simp at h; subst h; exact ⟨⟨hx, hk⟩, rfl⟩
+        · intro f h; simp at h; subst h; exact ⟨⟨hx, hk⟩, rfl⟩
+      · refine outOK_noemit ?_ ?_ <;> intro f h <;> simp at h
+  | object =>
+    simp only [stepFn]
+    cases a with
+    | fail => trivial
+    | rune c r => exact stepObject_ok hP hL hx hk.1 hk.2 _ _ _
+  | objectPName =>
+    simp only [stepFn]
+    cases a with
+    | fail => trivial
+    | rune c r => exact emitOfTerm_ok hx hk.1 hk.2 (termPName_ok hP _ _)
+  | collOpenObj =>
+    simp only [stepFn]
+    cases a with
+    | fail => trivial
+    | rune c r => exact stepCollection_ok hx _ _ _ (by trivial) (Or.inl hk)
+  | collOpenSubj o =>
+    simp only [stepFn]
+    exact stepCollection_ok hx _ _ _ hk.2 (Or.inr ⟨hk.1, hcos rfl⟩)
+  | collContinue =>
+    simp only [stepFn]
+    cases a with
+    | fail => trivial
+    | rune c r =>
+      simp only []
+      obtain ⟨s, hs⟩ := Option.isSome_iff_exists.mp hk.1
+      have hwf : ∀ o : T, litShape o → WFStmt C.trig { s := x.subj, p := some (.iri rdfRest), o := o, g := x.graph } :=
+        fun o ho => ⟨⟨s, hs, hx.subj s hs⟩, ⟨_, rfl, trivial⟩, ho, hx.graph⟩
+      split
+      · refine outOK_simple ?_ ?_ ?_
+        · intro f h; simp at h
+        · intro f h; simp at h
+        · intro s' h; simp at h; subst h; exact hwf _ trivial
+      · have hnx : XOk C.trig { x with subj := some env.fresh.1 } := hx.setSubj trivial
+        have hpred : ({ x with subj := some env.fresh.1 } : Ectx).pred.isSome := hk.2
+        refine outOK_simple ?_ ?_ ?_
+        · intro f h; simp at h; subst h; exact ⟨⟨hnx, rfl, hpred⟩, rfl⟩
+        · intro f h; simp at h; subst h; exact ⟨⟨hnx, rfl, hpred⟩, rfl⟩
+        · intro s' h; simp at h; subst h; exact hwf _ trivial
+  | bnplEnd =>
+    simp only [stepFn]
+    cases a with
+    | fail => trivial
+    | rune c r =>
+      simp only []; split
+      · refine outOK_noemit ?_ ?_ <;> intro f h <;> simp at h
+      · trivial
+  | parenTop bn => simp only [stepFn]; exact stepParen_ok true hx hk.1 _ hk.2 ha
+  | parenBlock bn => simp only [stepFn]; exact stepParen_ok false hx hk.1 _ hk.2 ha
+  | graphLabel =>
+    simp only [stepFn]
+    cases a with
+    | fail => trivial
+    | rune c r =>
+      simp only []
+      split
+      · exact resOK_self hx (by exact hk) (by rfl) _ _
+      · have htr : TermResOK (if c = 0x5f then termBNode C e env (c :: r)
+                  else if c = 0x3c then termIRIREF C e env (c :: r) else termPName C e env (c :: r)) := by
+          split
+          · exact termBNode_ok hP _ _
+          · split
+            · exact termIRIREF_ok hP _ _
+            · exact termPName_ok hP _ _
+        split
+        · next h => rw [h] at htr; exact htr
+        · trivial
+        · next g r' env' h =>
+          rw [h] at htr
+          refine outOK_noemit ?_ ?_
+          · intro f h; simp at h
+          · intro f h; simp at h; subst h; exact ⟨⟨hx.setGraph hk.2 htr, hk.1⟩, rfl⟩
+  | graphAnonClose =>
+    simp only [stepFn]
+    split
+    · trivial
+    · refine outOK_noemit ?_ ?_
+      · intro f h; simp at h
+      · intro f h; simp at h; subst h; exact ⟨⟨hx.setGraph hk.2 trivial, hk.1⟩, rfl⟩
+  | wrappedGraph => simp only [stepFn]; exact stepWrappedGraph_ok hx hk _ _
+  | wrappedGraphEnd =>
+    simp only [stepFn]
+    cases a with
+    | fail => trivial
+    | rune c r =>
+      simp only []; split
+      · trivial
+      · refine outOK_noemit ?_ ?_ <;> intro f h <;> simp at h
+  | triplesBlock =>
+    simp only [stepFn]
+    cases a with
+    | fail => trivial
+    | rune c r =>
+      simp only []; split
+      · refine outOK_noemit ?_ ?_ <;> intro f h <;> simp at h
+      · refine outOK_noemit ?_ ?_
+        · intro f h; simp at h; subst h; exact ⟨⟨hx, hk⟩, rfl⟩
+        · intro f h; simp at h; subst h; exact ⟨⟨hx, hk⟩, rfl⟩
+  | triplesBlockQuest =>
+    simp only [stepFn]
+    cases a with
+    | fail => trivial
+    | rune c r =>
+      simp only []; split
+      · exact resOK_self hx (by exact hk) (by rfl) _ _
+      · split
+        · refine outOK_noemit ?_ ?_ <;> intro f h <;> simp at h
+        · exact resOK_self hx (by exact hk) (by rfl) _ _
+  | triples =>
+    simp only [stepFn]
+    cases a with
+    | fail => trivial
+    | rune c r => exact stepTriples_ok hx hk _ _ _
+  | tgE1 v =>
+    simp only [stepFn]
+    split
+    · have hnx : XOk C.trig { x with graph := some v } := hx.setGraph hk.2.1 hk.2.2
+      refine outOK_noemit ?_ ?_
+      · intro f h; simp at h; subst h; exact ⟨⟨hnx, trivial⟩, rfl⟩
+      · intro f h; simp at h; subst h; exact ⟨⟨hnx, hk.1⟩, rfl⟩
+    · have hnx : XOk C.trig { x with subj := some v } := hx.setSubj hk.2.2
+      split
+      · exact False.elim hk.2.2
+      · refine outOK_noemit ?_ ?_
+        · intro f h; simp at h; rcases h with rfl | rfl <;> exact ⟨⟨hnx, by first | trivial | rfl⟩, rfl⟩
+        · intro f h; simp at h; subst h; exact ⟨⟨hnx, rfl⟩, rfl⟩
+  | tgBracket bn =>
+    simp only [stepFn]
+    split
+    · exact resOK_self hx (by exact hk) (by rfl) _ _
+    · refine outOK_noemit ?_ ?_
+      · intro f h; simp at h
+      · intro f h; simp at h; subst h; exact ⟨⟨hx.setSubj hk.2.2, rfl⟩, rfl⟩
+  | triples2BNPL =>
+    simp only [stepFn]
+    cases a with
+    | fail => trivial
+    | rune c r =>
+      simp only []
+      split
+      · refine outOK_noemit ?_ ?_
+        · intro f h; simp at h; rcases h with rfl | rfl <;> exact ⟨⟨hx, by first | trivial | exact hk⟩, rfl⟩
+        · intro f h; simp at h; subst h; exact ⟨⟨hx, hk⟩, rfl⟩
+      · refine outOK_noemit ?_ ?_
+        · intro f h; simp at h; rcases h with rfl | rfl | rfl | rfl <;> exact ⟨⟨hx, by first | trivial | exact hk⟩, rfl⟩
+        · intro f h; simp at h; subst h; exact ⟨⟨hx, hk⟩, rfl⟩
+
+end RdfModel.TtlDoc
+
+namespace RdfModel.TtlDoc
+
+variable {C : Cfg} {e : End}
+
+theorem scanFn_ok (hP : C.P.NoPanic) (hL : C.P.LangNonEmpty) {f : Frame} (hf : FrameOK C.trig f)
+    (inp : List Nat) (env : Env) (hla : isCOS f.k = true → LA C e inp) : ResOK C e (scanFn C e f inp env) := by
+  unfold scanFn
+  split
+  · trivial
+  · exact stepFn_ok hP hL hf env trivial (fun _ => by simp [Arg.orNul])
+  · next c r h =>
+    exact stepFn_ok hP hL hf env (skipWs_idem C e _ _ _ _ h) (fun hc => by simpa [Arg.orNul] using hla hc c r h)
+
+theorem withSelf_push {x : Ectx} {r : FnRes} {o : Out} (h : withSelf x r = .ok o) :
+    ∃ ps, o.push = ⟨x, .statement⟩ :: ps := by
+  cases r with
+  | ok o' => simp [withSelf] at h; subst h; exact ⟨_, rfl⟩
+  | err k => simp [withSelf] at h
+  | panic => simp [withSelf] at h
+
+/-- the bottom of the scan-function stack is the top-level function (`reader_scanStatement` /
+    `reader_scan_trigDoc`): it re-pushes itself before it does anything else -/
+def Bot (cur : Option Frame) (st : St) : Prop := ∃ fs x, cur.toList ++ st.stack = fs ++ [⟨x, .statement⟩]
+
+/-- invariant of the decoder between two iterations of the loop in `Next` -/
+structure MInv (C : Cfg) (e : End) (cr : Option Frame) (st : St) : Prop where
+  stack : ∀ f ∈ st.stack, FrameOK C.trig f ∧ isCOS f.k = false
+  cur : ∀ f, cr = some f → FrameOK C.trig f ∧ (isCOS f.k = true → st.stmts = [] ∧ LA C e st.inp)
+  stmts : ∀ s ∈ st.stmts, WFStmt C.trig s
+  /-- as long as the stack has not been dropped by `terminate()`, which needs a clean end of input -/
+  bot : e = .ioerr → st.err = none → Bot cr st
+
+def NextResOK (C : Cfg) (e : End) : NextRes → Prop
+  | .yes st' => MInv C e none st'
+  | .no st' => e = .ioerr → st'.err.isSome
+  | .panic => False
+  | .outOfFuel => True
+
+theorem last_of_append_singleton {α} {a b : α} {l1 l2 : List α} (h : a :: l1 = l2 ++ [b]) :
+    (l1 = [] ∧ a = b ∧ l2 = []) ∨ (∃ l2', l1 = l2' ++ [b]) := by
+  cases l2 with
+  | nil => simp at h; exact Or.inl ⟨h.2, h.1, rfl⟩
+  | cons c l2 => simp at h; exact Or.inr ⟨l2, h.2⟩
+
+theorem nextLoop_inv (hP : C.P.NoPanic) (hL : C.P.LangNonEmpty) :
+    ∀ fuel cur st, MInv C e cur st → NextResOK C e (nextLoop C e fuel cur st) := by
+  intro fuel
+  induction fuel with
+  | zero => intro cur st _; simp [nextLoop, NextResOK]
+  | succ n ih =>
+    intro cur st hinv
+    unfold nextLoop
+    split
+    · next herr => exact fun _ => herr
+    · next herr =>
+      have herr' : st.err = none := by cases h : st.err <;> simp_all
+      split
+      · next hne =>
+        -- Next() = true: rsNext (if any) is pushed
+        refine ⟨?_, (fun f h => by cases h), ?_, ?_⟩
+        · intro f hf
+          cases cur with
+          | none => exact hinv.stack f hf
+          | some g =>
+            simp [pushCur] at hf
+            rcases hf with rfl | hf
+            · refine ⟨(hinv.cur f rfl).1, ?_⟩
+              cases hc : isCOS f.k with
+              | false => rfl
+              | true =>
+                have := ((hinv.cur f rfl).2 hc).1
+                simp [this] at hne
+            · exact hinv.stack f hf
+        · intro s hs
+          cases cur <;> exact hinv.stmts s (by simpa [pushCur] using hs)
+        · intro he _
+          obtain ⟨fs, x, h⟩ := hinv.bot he herr'
+          refine ⟨fs, x, ?_⟩
+          cases cur <;> simpa [pushCur] using h
+      · next hne =>
+        have hempty : st.stmts = [] := isEmpty_false_of hne
+        split
+        · next hp =>
+          -- nothing left to run: only after `terminate()`
+          intro he
+          obtain ⟨fs, x, h⟩ := hinv.bot he herr'
+          obtain ⟨rfl, hs⟩ := popFrame_none hp
+          simp [hs] at h
+        · next f st1 hp =>
+          obtain ⟨hs1, he1, hi1, hv1, hfrom⟩ := popFrame_some hp
+          have hfr : cur.toList ++ st.stack = f :: st1.stack := by
+            rcases hfrom with ⟨rfl, h'⟩ | ⟨rfl, h'⟩ <;> simp [h']
+          have hf : FrameOK C.trig f ∧ (isCOS f.k = true → LA C e st1.inp) := by
+            rcases hfrom with ⟨rfl, _⟩ | ⟨_, hst⟩
+            · exact ⟨(hinv.cur f rfl).1, fun hc => by rw [hi1]; exact ((hinv.cur f rfl).2 hc).2⟩
+            · have := hinv.stack f (by rw [hst]; exact List.mem_cons_self)
+              exact ⟨this.1, fun hc => by rw [this.2] at hc; cases hc⟩
+          have hstack1 : ∀ g ∈ st1.stack, FrameOK C.trig g ∧ isCOS g.k = false := by
+            intro g hg
+            rcases hfrom with ⟨_, hst⟩ | ⟨_, hst⟩
+            · exact hinv.stack g (by rw [← hst]; exact hg)
+            · exact hinv.stack g (by rw [hst]; exact List.mem_cons_of_mem _ hg)
+          have hres := scanFn_ok (e := e) hP hL hf.1 st1.inp st1.env hf.2
+          unfold scan
+          cases hsc : scanFn C e f st1.inp st1.env with
+          | panic => rw [hsc] at hres; exact hres.elim
+          | err k =>
+            simp only []
+            refine ih none { st1 with err := some k } ⟨hstack1, (fun f h => by cases h), ?_, (fun _ h => by cases h)⟩
+            intro s hs
+            simp [hs1, hempty] at hs
+          | ok o =>
+            rw [hsc] at hres
+            simp only []
+            have hres : OutOK C e o := hres
+            have : MInv C e o.cur (applyOut st1 o) := by
+              refine ⟨?_, ?_, ?_, ?_⟩
+              · intro g hg
+                simp only [applyOut] at hg
+                split at hg
+                · cases hg
+                · rcases List.mem_append.mp hg with hg | hg
+                  · exact hres.push g (List.mem_reverse.mp hg)
+                  · exact hstack1 g hg
+              · intro g hg
+                refine ⟨(hres.cur g hg).1, fun hc => ?_⟩
+                have := (hres.cur g hg).2 hc
+                refine ⟨?_, this.2⟩
+                simp [applyOut, this.1, hs1, hempty]
+              · intro s hs
+                simp [applyOut, hs1, hempty] at hs
+                exact hres.emit s hs
+              · intro he _
+                have hterm : o.term = false := by
+                  cases ht : o.term with
+                  | false => rfl
+                  | true => have := hres.term ht; rw [he] at this; cases this
+                obtain ⟨fs, x, hb⟩ := hinv.bot he herr'
+                rw [hfr] at hb
+                simp only [Bot, applyOut, hterm, Bool.false_eq_true, ite_false]
+                rcases last_of_append_singleton hb with ⟨hnil, hfx, _⟩ | ⟨l2, hl2⟩
+                · -- the top-level function itself ran: it has pushed itself first
+                  have hk : f.k = .statement := by rw [hfx]
+                  unfold scanFn at hsc
+                  rw [hk] at hsc
+                  have : ∃ ps, o.push = ⟨f.x, .statement⟩ :: ps := by
+                    split at hsc
+                    · cases hsc
+                    · simp only [stepFn] at hsc; subst he; simp at hsc
+                    · simp only [stepFn] at hsc; exact withSelf_push hsc
+                  obtain ⟨ps, hps⟩ := this
+                  refine ⟨o.cur.toList ++ ps.reverse, f.x, ?_⟩
+                  simp [hps, hnil]
+                · refine ⟨o.cur.toList ++ o.push.reverse ++ l2, x, ?_⟩
+                  simp [hl2]
+            exact ih o.cur (applyOut st1 o) this
+
+theorem mInv_init (C : Cfg) (e : End) (base : Option (List Nat)) (pf : List (List Nat × List Nat))
+    (inp : List Nat) : MInv C e none (init base pf inp) := by
+  refine ⟨?_, (fun f h => by cases h), (fun s h => by simp [init] at h), (fun _ _ => ⟨[], {}, by simp [init]⟩)⟩
+  intro f hf
+  simp [init] at hf; subst hf
+  exact ⟨⟨⟨(fun s h => by cases h), (fun s h => by cases h), (fun s h => by cases h)⟩, rfl⟩, rfl⟩
+
+theorem mInv_drop {st : St} (h : MInv C e none st) : MInv C e none { st with stmts := st.stmts.drop 1 } :=
+  ⟨h.stack, (fun f hf => by cases hf), (fun s hs => h.stmts s (List.mem_of_mem_drop hs)), h.bot⟩
+
+/-- `run`: never a panic, every statement well formed, and a failing reader never ends cleanly. -/
+theorem runLoop_ok (hP : C.P.NoPanic) (hL : C.P.LangNonEmpty) :
+    ∀ n st, MInv C e none st →
+      (runLoop C e n st).2 ≠ .panic ∧ (∀ s ∈ (runLoop C e n st).1, WFStmt C.trig s) ∧
+      (e = .ioerr → (runLoop C e n st).2 ≠ .clean) := by
+  intro n
+  induction n with
+  | zero => intro st _; simp [runLoop]
+  | succ n ih =>
+    intro st hinv
+    unfold runLoop
+    have hstep := nextLoop_inv (e := e) hP hL (({ st with stmts := st.stmts.drop 1 } : St).cost + 1) none _ (mInv_drop hinv)
+    have hyes := nextLoop_yes C e (({ st with stmts := st.stmts.drop 1 } : St).cost + 1) none { st with stmts := st.stmts.drop 1 }
+    unfold next
+    simp only []
+    split
+    · next h => rw [h] at hstep; exact hstep.elim
+    · simp
+    · next st' h =>
+      rw [h] at hstep
+      refine ⟨by cases st'.err <;> simp, by simp, fun he => ?_⟩
+      have := hstep he
+      cases hh : st'.err with
+      | none => simp [hh] at this
+      | some k => simp
+    · next st' h =>
+      rw [h] at hstep
+      change MInv C e none st' at hstep
+      have hne := hyes st' h
+      split
+      · next hnil => exact absurd hnil hne
+      · next s rest hcons =>
+        have := ih st' hstep
+        refine ⟨this.1, ?_, this.2.2⟩
+        intro s' hs'
+        simp at hs'
+        rcases hs' with rfl | hs'
+        · exact hstep.stmts _ (by rw [hcons]; exact List.mem_cons_self)
+        · exact this.2.1 s' hs'
 
 end RdfModel.TtlDoc
